@@ -555,6 +555,29 @@ fn suite_txt(r: &mut Report) {
         }));
         match res { Err(_) => r.fail("panic", format!("text length {}", n), String::new()), Ok(Some(d)) => r.fail("C04 TXT RDLENGTH / text round trip", format!("text length {}", n), d), Ok(None) => {} }
     }
+    // <character-string> construction (C10): accepted exactly when the *bytes* fit 255, whatever the characters are;
+    // an accepted string is written with its own length octet (never truncated)
+    for (unit, reps) in [("x", 255usize), ("x", 256), ("x", 257), ("\u{e9}", 127), ("\u{e9}", 128), ("\u{e9}", 200), ("\u{4e2d}", 85), ("\u{4e2d}", 86), ("\u{1F600}", 63), ("\u{1F600}", 64)] {
+        r.cases += 1;
+        let s: String = unit.repeat(reps);
+        let nbytes = s.len();
+        let st: &'static str = Box::leak(s.clone().into_boxed_str());
+        let input = format!("{} x {:?} = {} bytes", reps, unit, nbytes);
+        let res = catch_unwind(AssertUnwindSafe(|| {
+            let mut bad: Vec<String> = vec![];
+            let a = CharacterString::new(st.as_bytes()).is_ok();
+            let b = CharacterString::try_from(st).is_ok();
+            let c = CharacterString::try_from(s.clone()).is_ok();
+            if a != (nbytes <= 255) || b != (nbytes <= 255) || c != (nbytes <= 255) { bad.push(format!("new={} try_from(&str)={} try_from(String)={} for {} bytes", a, b, c, nbytes)); }
+            if let Ok(cs) = CharacterString::try_from(st) {
+                let mut p = Packet::new_reply(1);
+                p.answers.push(ResourceRecord::new(Name::new_unchecked("h.example"), CLASS::IN, 1, RData::HINFO(HINFO { cpu: cs.clone(), os: cs })));
+                if let Ok(bytes) = p.build_bytes_vec() { if ref_walk(&bytes).is_none() || Packet::parse(&bytes).is_err() { bad.push("an accepted string is not written as a well-framed record".into()); } }
+            }
+            bad
+        }));
+        match res { Err(_) => r.fail("C10 panic while constructing a character-string", input.clone(), String::new()), Ok(bad) => for d in bad { r.fail("C10 character-string accepted / refused by something other than its byte length (255)", input.clone(), d); } }
+    }
 }
 
 fn main() {
@@ -573,7 +596,7 @@ fn main() {
                 "malformed" => Report::new("malformed", "every truncation, +-1 and 4 fixed values at every byte of ~45 generated messages (< 600 bytes) and 18 hand-made pointer graphs"),
                 "observers" => Report::new("observers", "20 hostile byte strings as label and as TXT string"),
                 "fuzz" => Report::new("fuzz", "VX_FUZZ_N (default 200000) random variants, seeded by VERIF_SEED, of the base messages of `malformed`: 1-4 mutations each (byte, bit, truncate, insert, planted pointer, spliced fragment, header count)"),
-                _ => Report::new("txt", "text lengths 0,1,253..256,300,508,509,600"),
+                _ => Report::new("txt", "text lengths 0,1,253..256,300,508,509,600; character-string construction for 10 ASCII / 2-, 3-, 4-byte UTF-8 strings around 255 bytes"),
             };
             match w2.as_str() { "name_text" => suite_name_text(&mut r), "roundtrip" => suite_roundtrip(&mut r), "malformed" => suite_malformed(&mut r, &cur2), "fuzz" => suite_fuzz(&mut r, &cur2), "observers" => suite_observers(&mut r), _ => suite_txt(&mut r) }
             let _ = tx.send(r);
